@@ -330,3 +330,39 @@ func stuckTasks(w *vs.World) []string {
 	}
 	return stuck
 }
+
+// reprefixed: the units report their violations under the property they are registered for
+// (harness bodies of one property judged for a neighbouring one whose clause they also decide).
+func reprefixed(us []fw.Unit) []fw.Unit {
+	for i := range us {
+		run := us[i].Run
+		us[i].Run = func(c *fw.Ctx) {
+			c.Reprefix = true
+			run(c)
+		}
+	}
+	return us
+}
+
+func reprefixedReplay(f func(c *fw.Ctx, data json.RawMessage)) func(c *fw.Ctx, data json.RawMessage) {
+	return func(c *fw.Ctx, data json.RawMessage) {
+		c.Reprefix = true
+		f(c, data)
+	}
+}
+
+// pickScenarios keeps the scenarios whose name starts with one of the prefixes.
+func pickScenarios(of func(tier string) []scenario, prefixes ...string) func(tier string) []scenario {
+	return func(tier string) []scenario {
+		var out []scenario
+		for _, sc := range of(tier) {
+			for _, p := range prefixes {
+				if strings.HasPrefix(sc.Name, p) {
+					out = append(out, sc)
+					break
+				}
+			}
+		}
+		return out
+	}
+}
